@@ -698,8 +698,129 @@ def falsy_items(ctx, n, kind):
             ctx.fail(case, 'StreamClosed on an open stream: %r' % (errors,), family='falsy-items')
 
 
+def withdrawn_receivers(ctx, n):
+    """directed family (direct API): several receivers queue up on an empty queue, some of them give up (cancelled, or their
+    `until` deadline passes) while they wait, then items arrive: the remaining receivers are served in the order in which
+    they started waiting, each gets exactly one item in put order, nobody who gave up gets one, nothing is lost"""
+    import usim
+    from usim import time, Scope
+    from harness import watch
+    rng = ctx.rng
+    for _ in range(n):
+        k = rng.choice([4, 5, 6])
+        quit_ = sorted(rng.sample(range(k), rng.choice([1, 2])))
+        how = {i: rng.choice(['cancel', 'until']) for i in quit_}
+        same_time = rng.random() < 0.5
+        case = {'withdrawn_receivers': dict(receivers=k, withdrawn=quit_, how=[how[i] for i in quit_], arrive_together=same_time)}
+        queue = usim.Queue()
+        got, tasks = [], {}
+
+        async def receiver(i):
+            if not same_time:
+                await (time + i * 0.1)
+            if how.get(i) == 'until':
+                async with usim.until(time == 5):
+                    x = await queue
+                    got.append((i, x, time.now))
+            else:
+                x = await queue
+                got.append((i, x, time.now))
+
+        async def main():
+            async with Scope() as scope:
+                for i in range(k):
+                    tasks[i] = scope.do(receiver(i))
+                await (time + 5)
+                for i in quit_:
+                    if how[i] == 'cancel':
+                        tasks[i].cancel()
+                await (time + 1)
+                for j in range(k - len(quit_)):
+                    await queue.put('item%d' % j)
+                await (time + 1)
+                await queue.close()
+        try:
+            watch.run(main())
+        except BaseException as e:   # noqa
+            ctx.fail(case, 'raised %r; received %r' % (e, got), family='withdrawn-receivers')
+            continue
+        ctx.count(('withdrawn', json.dumps(case)), nontrivial=True)
+        ctx.bump('family:withdrawn-receivers')
+        stay = [i for i in range(k) if i not in quit_]
+        want = [(i, 'item%d' % j, 6) for j, i in enumerate(stay)]
+        if got != want:
+            ctx.fail(case, '%d receivers waiting in order, %r withdrawn at time 5, %d items put at 6: received %r (receiver, item, '
+                           'time), expected %r' % (k, quit_, len(stay), got, want), family='withdrawn-receivers')
+
+
+def interrupted_producers(ctx, n):
+    """directed family (direct API): a producer is cancelled / interrupted / closed in the very time step in which it puts,
+    i.e. at the suspension point inside `put`, while a receiver waits on the empty queue.  An item that `put` has accepted
+    (it is in the queue) reaches the waiting receiver in that time step; an item is never both refused and delivered"""
+    import usim
+    from usim import time, Scope
+    from harness import watch
+    rng = ctx.rng
+    for _ in range(n):
+        how = rng.choice(['cancel', 'until', 'volatile'])
+        nrecv = rng.choice([1, 2])
+        case = {'interrupted_producer': dict(how=how, receivers=nrecv)}
+        queue = usim.Queue()
+        got, put_done = [], []
+
+        async def receiver(i):
+            x = await queue
+            got.append((i, x, time.now))
+
+        async def producer():
+            await (time + 1)
+            if how == 'until':
+                async with usim.until(time == 1):
+                    await queue.put('x')
+                    put_done.append(time.now)
+            else:
+                await queue.put('x')
+                put_done.append(time.now)
+
+        async def main():
+            async with Scope() as scope:
+                for i in range(nrecv):
+                    scope.do(receiver(i), volatile=True)
+                if how == 'volatile':
+                    async with Scope() as inner:
+                        inner.do(producer(), volatile=True)
+                        await (time + 1)
+                        await usim.instant         # the producer has called put() in this time step; now its scope ends
+                else:
+                    prod = scope.do(producer())
+                    await (time + 1)
+                    await usim.instant
+                    if how == 'cancel':
+                        prod.cancel()
+                await (time + 2)
+                leftover = len(queue._buffer)
+                got.append(('left in the queue', leftover, time.now))
+        try:
+            watch.run(main())
+        except BaseException as e:   # noqa
+            ctx.fail(case, 'raised %r; observed %r' % (e, got), family='interrupted-producers')
+            continue
+        ctx.count(('interrupted-producer', json.dumps(case)), nontrivial=True)
+        ctx.bump('family:interrupted-producers')
+        recv = [g for g in got if g[0] != 'left in the queue']
+        left = [g for g in got if g[0] == 'left in the queue'][0][1]
+        # exactly one of: delivered to the first waiting receiver at time 1 / (never) still in the queue next to a waiting receiver
+        if not (recv == [(0, 'x', 1)] and left == 0):
+            ctx.fail(case, 'a producer %s at the suspension point of its put() at time 1 while %d receivers wait: received %r, %d items '
+                           'left in the queue at time 3; expected the accepted item at the first receiver at time 1'
+                     % ({'cancel': 'cancelled', 'until': 'interrupted by its deadline', 'volatile': 'closed with its scope'}[how], nrecv, recv, left),
+                     family='interrupted-producers')
+
+
 def run(ctx):
     falsy_items(ctx, ctx.n(40, 600), 'queue')
+    interrupted_producers(ctx, ctx.n(20, 200))
+    withdrawn_receivers(ctx, ctx.n(30, 300))
     _run_vertical(ctx)
     # second, independent tie: queue programs on the whole-program machine (whole-trace correspondence) + exactly-once/order monitor
     from harness import machine_prop
